@@ -196,6 +196,14 @@ func (l *link) fault(rng *rand.Rand, kind string, e, pos int, part string, keepL
 		desc := ""
 		for k := 0; k < n; k++ {
 			off := lo + rng.Intn(hi-lo)
+			if k == 0 && part == "flip" && rng.Intn(2) == 0 {
+				// key, garbage, terminator: favour the first and last byte
+				// (comparisons that stop one byte short)
+				off = lo
+				if rng.Intn(2) == 0 {
+					off = hi - 1
+				}
+			}
 			var mask byte
 			if rng.Intn(2) == 0 {
 				mask = 1 << uint(rng.Intn(8))
